@@ -29,6 +29,7 @@ SCRIPT_DEFAULTS = dict(
     p_removed_runner=0.05,
     p_orders_cb=0.0,
     liabilities=(2.0, 10.0, 15.5, 30.0),
+    sides=("BACK", "LAY"),
 )
 
 
@@ -94,7 +95,7 @@ def gen_script(rng, snaps, market_id, name, params=None, ref_prefix=""):
             key = rng.choice(keys)
         else:
             continue
-        side = rng.choice(("BACK", "LAY"))
+        side = rng.choice(p["sides"])
         otype = rng.choice(p["types"])
         ref = "%s%s%d" % (ref_prefix, name, j)
         act = {"m": market_id, "at": at, "op": "place", "ref": ref, "sel": [key[0], key[1]], "side": side, "otype": otype}
